@@ -156,6 +156,31 @@ def run_generated(ctx, ncases, depth, allow_huge):
                     dev_seen['purity'] = 1
                     ctx.violation(dict(kind='decode-not-a-function-of-the-bytes', type=s, hdr=c['hdr'], wire=d.hex()[:2000], first_decode=first[:400], decode_after_mutating_the_first_result=again[:400],
                                        how='v = t.create_from_stream(BytesIO(wire), hdr); mutate v in place; t.create_from_stream(BytesIO(wire), hdr) again'))
+            # (c) ... and of nothing else: the same well-formed encodings decoded by `python -O` (assert statements compiled away - a codec must not
+            #     do its reading inside one) give the same values and leave the same tails
+            if b == 0:
+                import subprocess, json as json_
+                sel = []
+                for c, s, d in zip(cases, syn, datas):
+                    if len(d) > 2000 or len(sel) >= 250: continue
+                    first = impl.lib_decode(lib.make(c['t']), d, c['hdr'])
+                    if first.startswith('OK'): sel.append((s, c['hdr'], d.hex(), first))
+                child = ("import sys, json\nfrom tools import impl\nlib = impl.LibTypes(); out = []\n"
+                         "for s, hdr, hx, _ in json.load(sys.stdin):\n"
+                         "    try: out.append(impl.lib_decode(lib.make(impl.parse_type_syntax(s)), bytes.fromhex(hx), hdr))\n"
+                         "    except Exception as e: out.append('child error ' + type(e).__name__)\n"
+                         "lib.close(); print(json.dumps(out))\n")
+                pr = subprocess.run([common.PY, '-O', '-c', child], input=json_.dumps(sel), capture_output=True, text=True, timeout=300, cwd=common.VERIF,
+                                    env=dict(os.environ, PYTHONPATH=common.REPO + os.pathsep + common.VERIF))
+                try: res = json_.loads(pr.stdout.strip().splitlines()[-1])
+                except Exception: res = None
+                ctx.obligation('the python -O child for the decode cases ran', res is not None and len(res) == len(sel), pr.stderr[-400:])
+                for (s, hdr, hx, first), r in zip(sel, res or []):
+                    ctx.case(None); ctx.count('decode-under-python-O')
+                    if r != first and 'python-O' not in dev_seen:
+                        dev_seen['python-O'] = 1
+                        ctx.violation(dict(kind='decode', type=s, hdr=hdr, wire=hx, interpreter='python -O', expected=first[:400], implementation=r[:400],
+                                           how='python -O: Alias(...).get_data_type_from_section(<Type>) ; create_from_stream(BytesIO(wire), hdr) ; tell() - compared with the same call under the default interpreter'))
             # (b) method argument lists: EntityMethod.create_from_stream must hand every argument codec the METHOD's header size - the arguments
             #     decode like the fields of a FIXED_DICT of the same types under that header size (the model's sequence decoder)
             from replay_unpack.core.entity_def.entity_description import EntityMethod, MethodArgument
